@@ -237,7 +237,7 @@ def _sync_one(s, call, received, max_items):
             it = s.getnext(call[1])
         elif op in ("getbulk", "getbulk1"):
             it = s.getbulk(call[1], call[2])
-        elif op == "fetch":
+        elif op in ("fetch", "fetch1"):
             it = s.fetch(call[1])
         else:
             raise ValueError(call)
@@ -307,7 +307,7 @@ def run_calls_async(G, cfg, calls, handler, timeout=1.0, max_items=2000, session
                 it = s.getnext(call[1])
             elif op in ("getbulk", "getbulk1"):
                 it = s.getbulk(call[1], call[2])
-            elif op == "fetch":
+            elif op in ("fetch", "fetch1"):
                 it = s.fetch(call[1])
             else:
                 raise ValueError(call)
